@@ -5,6 +5,7 @@ import (
 	"net/http"
 	"time"
 
+	"github.com/0xReLogic/Helios/internal/config"
 	"github.com/0xReLogic/Helios/internal/metrics"
 	"github.com/0xReLogic/Helios/internal/verifrt"
 )
@@ -32,10 +33,10 @@ func VerifC04History(strategy int, k int) {
 	r := verifRequest("10.1.2.3:4711")
 
 	now := int64(0)
-	ejected := false   // ghost: an ejection happened and its window has not been observed to end
+	ejected := false // ghost: an ejection happened and its window has not been observed to end
 	ejectedAt := int64(0)
-	failsSince := 0    // failed responses since the last ejection
-	row := 0           // failed responses in a row
+	failsSince := 0 // failed responses since the last ejection
+	row := 0        // failed responses in a row
 	probeInFlight := false
 
 	inWindow := func() bool { return ejected && now-ejectedAt < win }
@@ -155,4 +156,48 @@ func VerifC04ConcurrentFailures() {
 	lb.recordRequestMetrics(b, 500, verifrt.Now(), r)
 	lb.recordRequestMetrics(b, 500, verifrt.Now(), r)
 	verifrt.Assert(!lb.IsBackendHealthy(b), "unhealthy_threshold failed responses in a row eject the backend (also after concurrent failures)")
+}
+
+// VerifC04Config: the health checker as the balancer builds it from the
+// configuration (real createHealthChecker), for every on/off combination of
+// active and passive checks, any threshold 1..3 and any unhealthy_timeout
+// 1..3600 s: a failed active probe ejects the backend for exactly the
+// configured window, unhealthy_threshold failed responses in a row do so iff
+// passive checks are enabled, and the backend is eligible again afterwards.
+func VerifC04Config(strategy int) {
+	cfg := &config.Config{}
+	hc := &cfg.HealthChecks
+	hc.Active.Enabled = verifrt.Bool("active.enabled")
+	hc.Active.Interval, hc.Active.Timeout, hc.Active.Path = 10, 5, "/health"
+	hc.Passive.Enabled = verifrt.Bool("passive.enabled")
+	hc.Passive.UnhealthyThreshold = verifrt.IntRange("unhealthy_threshold", 1, 3)
+	hc.Passive.UnhealthyTimeout = verifrt.IntRange("unhealthy_timeout", 1, 3600)
+	window := time.Duration(hc.Passive.UnhealthyTimeout) * time.Second
+	lb := verifBareLB(strategy)
+	lb.healthChecks = createHealthChecker(cfg)
+	lb.metricsCollector = metrics.NewMetricsCollector()
+	b := verifBackend(0)
+	lb.strategy.AddBackend(b)
+	r := verifRequest("10.1.2.3:4711")
+	ejected := false
+	if verifrt.Bool("probeFails") {
+		verifrt.Assume(hc.Active.Enabled)
+		lb.handleHealthCheckFailure(b, verifProbeErr)
+		ejected = true
+	} else {
+		for i := 0; i < 3; i++ {
+			if i < hc.Passive.UnhealthyThreshold {
+				lb.recordRequestMetrics(b, 502, verifrt.Now(), r)
+			}
+		}
+		ejected = hc.Passive.Enabled
+	}
+	verifrt.Assert(lb.IsBackendHealthy(b) == !ejected, "a failed probe ejects; threshold failed responses eject exactly when passive checks are enabled")
+	if !ejected {
+		return
+	}
+	verifrt.Advance(window - time.Second)
+	verifrt.Assert(lb.findHealthyBackend(r) == nil, "an ejected backend receives no traffic for the configured unhealthy window (whatever the on/off combination)")
+	verifrt.Advance(2 * time.Second)
+	verifrt.Assert(lb.findHealthyBackend(r) == b, "after the configured window the backend receives traffic again")
 }
